@@ -111,7 +111,7 @@ func TestVerifC26_ReplayTimeline(t *testing.T) {
 		VerifSetClock(time.Unix(0, tl.CacheBorn))
 		nc := NewNonceCache(tl.Site.TTL)
 		res := tl.Run(excl, func(ns int64) { VerifSetClock(time.Unix(0, ns)) },
-			func(m *c26Msg, tol time.Duration) bool { return c26Deliver(nc, m, tol) })
+			func(m *c26Msg, tol time.Duration) bool { return c26Deliver(nc, m, tol) }, nil)
 		for i := 0; i < res.Excluded; i++ {
 			verifkit.CountExcluded(kfC26TTL)
 		}
